@@ -105,13 +105,15 @@ PROPERTIES = {
         note='Bounded stand-in, NOT a proof: Kani needs >300 s and >14 GB for one descriptor of length 1 (measured) and Verus has no str/Chars support, so the real functions are run natively on every input up to the stated bound and compared with an independent oracle; inputs beyond the bound are not covered. Real anyhow, scratch copy of the crate.',
         out=['quill/src/remapper.rs remapper_b / BRemapperImpl::map_field_fail / map_method_fail (IndexMap, recursion over super classes)', 'X->Y->X identity']),
     'C11': dict(
-        level='other', verus=[], kani=[], enum=['inner', 'maps'],
-        technique=ENUM_TECH,
-        explanation='Bounded stand-in for the inner-class split/join helpers: all valid object class names of length <= 7 over {a b $ /}; all pairs of names <= 3.',
-        claim='Bounded (not proved): split_inner_class_parent_and_name is the last-$ split that refuses empty sides and package crossings; get_inner_class_name/parent agree with it; from_inner_class and split are mutually inverse. '
-              'Not covered: the recursive extend/contract over a whole mapping set (IndexMap of JavaString) and failure when an outer class is missing.',
-        note='Bounded stand-in, NOT a proof: Kani needs >300 s and >14 GB for one descriptor of length 1 (measured) and Verus has no str/Chars support, so the real functions are run natively on every input up to the stated bound and compared with an independent oracle; inputs beyond the bound are not covered. Real anyhow, scratch copy of the crate.',
-        out=['quill/src/action/extend_inner_class_names.rs map / extend / contract over Mappings (IndexMap)']),
+        level='other', verus=['inner'], kani=[], enum=['inner', 'maps'],
+        technique=ENUM_TECH + '; the two split / join helpers additionally by ' + VERUS_TECH,
+        explanation='The property as a whole (extension / contraction over a mapping set) is only covered by the bounded stand-in; the two helper functions are proved unboundedly. Bounded part: all valid object class names of length <= 7 over {a b $ /}; all pairs of names <= 3; whole mapping sets of the E3 group maps for extend / contract.',
+        claim='Bounded (not proved) for the property as a whole. Unbounded proof for the two helper functions under contract only: split_inner_class_parent_and_name answers Some exactly when the last $ splits the name into a non-empty parent not ending in / and a non-empty inner name without /, '
+              'and then returns the text around that $; from_inner_class returns parent + $ + inner; lemma: split and join are mutually inverse (for inner names without $). '
+              'Partial: the recursive extend / contract over a whole mapping set (IndexMap of JavaString, closures) and the failure when an outer class is missing are covered by the bounded enumeration only.',
+        note='Trusted: Verus+Z3; extraction rewrites (unsafe { f(x) } -> f(x), borrowed result slices -> owned copies); mirror of java_string (code point = char; rsplit_once / ends_with / contains / is_empty with their std meaning, bodies verified, agreement with the crate assumed). '
+             'Bounded stand-in for the map level: native enumeration against a model-level oracle (kx/enum).',
+        out=['quill/src/action/extend_inner_class_names.rs map / extend / contract over Mappings (IndexMap) -- bounded only', 'get_inner_class_name / get_inner_class_parent (Option::map with closures)']),
     'C13': dict(
         level='other', verus=[], kani=[], enum=['mpo'],
         technique=ENUM_TECH,
@@ -121,7 +123,7 @@ PROPERTIES = {
         note='Bounded stand-in, NOT a proof: Kani needs >300 s and >14 GB for one descriptor of length 1 (measured) and Verus has no str/Chars support, so the real functions are run natively on every input up to the stated bound and compared with an independent oracle; inputs beyond the bound are not covered. Real anyhow, scratch copy of the crate.',
         out=['dukebox/src/merge.rs merge_slice, class_merger_merge, merge (jar table), sided_annotation', 'dukebox/src/storage/*']),
     'C18': dict(
-        level='proof', verus=['desc'], kani=[], enum=['desc', 'names', 'inner'],
+        level='proof', verus=['desc', 'inner'], kani=[], enum=['desc', 'names', 'inner'],
         technique=VERUS_TECH,
         explanation='Bounded part (never counted as proved): all strings of length <= 5 (field/return descriptors, 11 letters), <= 6 (method descriptors, 9 letters), <= 5 (names, 8 letters), plus the 255-dimension boundary and print-then-parse on a family of type structures.',
         claim='Unbounded proof, for the functions under contract only: read_field_type, FieldDescriptorSlice::parse, ReturnDescriptorSlice::parse and MethodDescriptorSlice::parse return Ok(t) exactly when the text is in the JVMS 4.3.2/4.3.3 grammar '
@@ -133,7 +135,7 @@ PROPERTIES = {
              'Bounded stand-in for the name predicates and as a second opinion on the parsers: native enumeration against an independent oracle (kx/enum).',
         out=['duke/src/tree/mod.rs names::is_valid_* (assumed / bounded only)', 'duke/src/tree/class.rs, field.rs, method.rs check_valid wrappers', 'unicode names beyond the bounded alphabet', 'signatures (check_valid accepts everything)']),
     'C16': dict(
-        level='proof', verus=['rlabels', 'cwrite', 'wjump', 'wpool', 'wencode', 'wattrs', 'rskip', 'rbranch', 'rscan', 'rpool', 'rdecode', 'rframes', 'rattrs', 'rtables', 'raccept', 'rtree', 'rarms', 'rtypes', 'adiff', 'scope', 'c20len', 'desc'], kani=[], enum=['desc', 'mapdesc', 'cls'],
+        level='proof', verus=['rlabels', 'cwrite', 'wjump', 'wpool', 'wencode', 'wattrs', 'rskip', 'rbranch', 'rscan', 'rpool', 'rdecode', 'rframes', 'rattrs', 'rtables', 'raccept', 'rtree', 'rarms', 'rtypes', 'adiff', 'scope', 'c20len', 'desc', 'inner'], kani=[], enum=['desc', 'mapdesc', 'cls'],
         technique=VERUS_TECH + ': implicit safety obligations (overflow, index, unwrap, unreachable, termination)',
         claim='Unbounded proof of panic-freedom and termination for every function extracted for the other properties (Verus generates no-overflow, in-bounds, no-failing-unwrap, unreachable!() unreachable, decreases obligations for each). '
               'This includes the descriptor parsers (read_field_type, the three parse functions, get_arguments_size) on arbitrary text. Partial: the line-oriented text parsers built on BufRead are outside the verifier and not covered.',
